@@ -228,6 +228,13 @@ func Positions(level int) []Position {
 			o["$defs"] = J{"D": J{"type": "object", "anyOf": A{obj(J{"p": l}, req(r, "p")), obj(J{"q": J{"type": "integer"}}, A{"q"})}}}
 			return o
 		}})
+	// anyOf with a member given by reference (the member type is an alias of the definition's type)
+	ps = append(ps,
+		Position{"anyof-ref", func(l J, r bool) J {
+			o := obj(J{"c": J{"anyOf": A{J{"$ref": "#/$defs/D"}, obj(J{"q": J{"type": "integer"}}, A{"q"})}}}, A{"c"})
+			o["$defs"] = J{"D": obj(J{"p": l}, req(r, "p"))}
+			return o
+		}})
 	if level >= 1 {
 		ps = append(ps,
 			Position{"item2", func(l J, r bool) J {
